@@ -130,4 +130,11 @@ PROPS = {
             E("h26", "c02", "TestC02_Exhaustive", (8, 1500), (16, 10000)),
         ],
     },
+    "C04": {
+        "level": "fault_enumeration",
+        "units": [
+            R("h26", "c04", "TestC04_Random", (1500, 8, 1500), (30000, 16, 6000)),
+            E("h26", "c04", "TestC04_Exhaustive", (8, 1500), (16, 10000)),
+        ],
+    },
 }
